@@ -114,6 +114,15 @@ let show_entry = function
       ^ (match d.d_cur with Some true -> "c" | Some false -> "n" | None -> "-")
   | MSentinel -> "S" | MPat a -> "P" ^ string_of_int (int_of_nat a)
 
+(* ---- interpolation contexts:  macros = name:val,name:val (hex) | -     before = S;O;Pcap,cap;... | - ---- *)
+let parse_macros m = if m = "-" then [] else
+  List.map (fun kv -> match String.split_on_char ':' kv with [k; v] -> (unhex k, unhex v) | _ -> failwith "macro") (String.split_on_char ',' m)
+let parse_before b = if b = "-" then [] else
+  List.map (fun e -> if e = "S" then LSentinel else if e = "O" then LOther
+             else LPat (List.map unhex (String.split_on_char ',' (String.sub e 1 (String.length e - 1)))))
+    (String.split_on_char ';' b)
+let hexlist l = if l = "-" then [] else List.map unhex (String.split_on_char ',' l)
+
 let handle cmd args =
   match cmd, args with
   | "b64", [s] -> (match base64_decode (unhex s) with
@@ -169,6 +178,21 @@ let handle cmd args =
       let ssum = (match spec_run rs env with None -> "none" | Some l -> show_sum (entries_of l)) in
       let ((t1, t2), t3) = event_flags rs env in
       m ^ " | " ^ sp ^ " | " ^ msum ^ " | " ^ ssum ^ " | " ^ (if t1 then "T1" else "") ^ (if t2 then "T2" else "") ^ (if t3 then "T3" else "") ^ (if clean rs env then "clean" else "")
+  | "interp", [tmpl; macros; before] ->
+      (match interp { ic_before = parse_before before; ic_macros = parse_macros macros } (unhex tmpl) with
+       | Some r -> "S" ^ hex r | None -> "E")
+  | "argv", [strings; macros; before] ->
+      (match exec_argv { ic_before = parse_before before; ic_macros = parse_macros macros } (hexlist strings) with
+       | Some l -> "S" ^ String.concat "," (List.map hex l) | None -> "E")
+  | "label", [existing; labels; macros; before] ->
+      (match label_value { ic_before = parse_before before; ic_macros = parse_macros macros } (hexlist existing) (hexlist labels) with
+       | Some r -> "S" ^ hex r | None -> "E")
+  | "expand", [in_action; macros; str] ->
+      let st = unhex str in
+      (match expandmacros (nat_of_int (List.length st + 1)) (parse_macros macros) (in_action = "1") st with
+       | Some (r, e) -> "S" ^ hex r ^ " " ^ string_of_int (int_of_nat e) | None -> "FUEL")
+  | "fold", [f; str] ->
+      "S" ^ hex (fold_case (match f with "l" -> FoldLower | "u" -> FoldUpper | _ -> FoldNone) (unhex str))
   | "io", [a; ver; outs] ->
       let outs = if outs = "-" then [] else List.init (String.length outs) (fun i -> outcome_of_char outs.[i]) in
       let r = replay_action (action_of_string a) (nat_of_int (int_of_string ver)) outs in
